@@ -264,17 +264,22 @@ class GraphInitializers(collections.UserDict[str, "_core.Value"]):
         if kwargs:
             data.update(kwargs)
         self._graph = graph
-        for value in data.values():
-            self._set_graph(value)
+        # Validate all items before taking ownership of any of them
+        for key, value in data.items():
+            self._check_item(key, value)
 
         super().__init__(data)
 
-    def _set_graph(self, value: _core.Value) -> None:
-        """Set the graph for the value."""
+    def _check_can_set_graph(self, value: _core.Value) -> None:
+        """Raise if the value cannot be owned by the graph. Does not modify anything."""
         if value._graph is not None and value._graph is not self._graph:
             raise ValueError(
                 f"Value '{value}' is already an initializer of a different graph. Please remove the value from the previous graph first"
             )
+
+    def _set_graph(self, value: _core.Value) -> None:
+        """Set the graph for the value."""
+        self._check_can_set_graph(value)
         value._is_initializer = True
         value._graph = self._graph
 
@@ -287,18 +292,15 @@ class GraphInitializers(collections.UserDict[str, "_core.Value"]):
             return
         value._graph = None
 
-    def __setitem__(self, key: str, value: _core.Value) -> None:
-        """Set an initializer for the graph."""
+    def _check_item(self, key: str, value: _core.Value) -> None:
+        """Raise if ``value`` cannot be stored under ``key``. Does not modify anything."""
         if not isinstance(value, _core.Value):
             raise TypeError(f"value must be a Value object, not {type(value)}")
         if not isinstance(key, str):
             raise TypeError(f"Value name must be a string, not {type(key)}")
         if key == "":
             raise ValueError("Value name cannot be an empty string")
-        if not value.name:
-            logger.info("Value %s does not have a name, setting it to '%s'", value, key)
-            value.name = key
-        elif key != value.name:
+        if value.name and key != value.name:
             raise ValueError(
                 f"Key '{key}' does not match the name of the value '{value.name}'. Please use the value.name as the key."
             )
@@ -306,6 +308,15 @@ class GraphInitializers(collections.UserDict[str, "_core.Value"]):
             raise ValueError(
                 f"Value '{value}' is produced by a node and cannot be a graph initializer"
             )
+        self._check_can_set_graph(value)
+
+    def __setitem__(self, key: str, value: _core.Value) -> None:
+        """Set an initializer for the graph."""
+        # Perform all checks first so that when there is an error nothing is modified
+        self._check_item(key, value)
+        if not value.name:
+            logger.info("Value %s does not have a name, setting it to '%s'", value, key)
+            value.name = key
         if key in self.data:
             # If the key already exists, unset the old value
             old_value = self.data[key]
@@ -322,6 +333,14 @@ class GraphInitializers(collections.UserDict[str, "_core.Value"]):
         # the dictionary is not modified
         self._maybe_unset_graph(value)
         super().__delitem__(key)
+
+    def update(self, other=(), /, **kwargs) -> None:
+        """Update the initializers. Nothing is modified if any of the new items is rejected."""
+        items = dict(other, **kwargs)
+        # Validate all items before taking ownership of any of them
+        for key, value in items.items():
+            self._check_item(key, value)
+        super().update(items)
 
     def __ior__(self, other):
         """Update the initializers in place, keeping the ownership of the values tracked."""
